@@ -87,6 +87,8 @@ def space(tier):
             for t in SMALL:
                 out.append(mk("if (%s) { %s } else { %s }" % (c, s, t), ("ifelse", c, s, t)))
                 out.append(mk("x += 1; if (%s) { %s } else { %s } y += (uint32_t)x;" % (c, s, t), ("ifelse-ctx", c, s, t)))
+                if s != ";" and t != ";":
+                    out.append(mk("if (%s) %s else %s" % (c, s, t), ("ifelse-nobrace", c, s, t)))
         for c2 in conds:
             for s in SMALL[:3]:
                 out.append(mk("if (%s) { %s } else if (%s) { y = 7; } else { x = 9; }" % (c, s, c2), ("elseif", c, c2, s)))
